@@ -21,6 +21,9 @@ pub enum Cfg {
     /// a directory *inside* another filesystem used directly as an overlay layer (a `VfsPath`
     /// with a non-empty path, no AltrootFS in between); `true`: the directory exists
     Sub(Box<Cfg>, String, bool),
+    /// an overlay whose layers are several directories of ONE filesystem (the way the crate's own
+    /// tests build overlays: `root.join("upper")`, `root.join("lower")`)
+    OvShared(Box<Cfg>, Vec<String>),
 }
 
 impl Cfg {
@@ -37,6 +40,7 @@ impl Cfg {
                 "Ov[{}]",
                 l.iter().map(|c| c.label()).collect::<Vec<_>>().join(",")
             ),
+            Cfg::OvShared(s, dirs) => format!("OvShared({})[{}]", s.label(), dirs.join(",")),
             Cfg::Sub(s, p, true) => format!("Sub({},{})", s.label(), p),
             Cfg::Sub(s, p, false) => format!("SubAbsent({},{})", s.label(), p),
         }
@@ -51,7 +55,7 @@ impl Cfg {
         match self {
             Cfg::Mem => false,
             Cfg::Phys => true,
-            Cfg::Alt(s, _) | Cfg::Sub(s, _, _) => s.has_phys(),
+            Cfg::Alt(s, _) | Cfg::Sub(s, _, _) | Cfg::OvShared(s, _) => s.has_phys(),
             Cfg::Ov(l) => l.iter().any(|c| c.has_phys()),
         }
     }
@@ -59,7 +63,7 @@ impl Cfg {
         match self {
             Cfg::Mem | Cfg::Phys => false,
             Cfg::Alt(s, _) | Cfg::Sub(s, _, _) => s.has_overlay(),
-            Cfg::Ov(_) => true,
+            Cfg::Ov(_) | Cfg::OvShared(..) => true,
         }
     }
     /// Parses labels such as `Ov[Alt(Mem,/Z),Mem]`.
@@ -89,6 +93,20 @@ impl Cfg {
                 }
                 *i += 1;
                 Some(Cfg::Alt(Box::new(inner), pre))
+            } else if rest.starts_with(b"OvShared(") {
+                *i += 9;
+                let inner = p(s, i)?;
+                if s.get(*i) != Some(&b')') || s.get(*i + 1) != Some(&b'[') {
+                    return None;
+                }
+                *i += 2;
+                let st = *i;
+                while *i < s.len() && s[*i] != b']' {
+                    *i += 1;
+                }
+                let dirs = String::from_utf8(s[st..*i].to_vec()).ok()?;
+                *i += 1;
+                Some(Cfg::OvShared(Box::new(inner), dirs.split(',').map(|d| d.to_string()).collect()))
             } else if rest.starts_with(b"Sub(") || rest.starts_with(b"SubAbsent(") {
                 let exists = rest.starts_with(b"Sub(");
                 *i += if exists { 4 } else { 10 };
@@ -684,6 +702,29 @@ impl Builder {
                 }
                 // the layer is the path itself: no further filesystem, no further wrapper
                 return dir;
+            }
+            Cfg::OvShared(inner, dirs) => {
+                let first = self.bases.len();
+                let s = self.node(inner, &format!("{}.0", id), lower, upper, top_layer);
+                assert!(self.bases.len() == first + 1, "HARNESS: OvShared needs a leaf filesystem");
+                let proto = self.bases.pop().unwrap();
+                let mut roots = vec![];
+                for (i, d) in dirs.iter().enumerate() {
+                    let dir = s.join(&d[1..]).expect("HARNESS: shared layer path");
+                    mkdirs(&dir);
+                    roots.push(dir);
+                    self.bases.push(Base {
+                        label: format!("{}{}", proto.label, d),
+                        node: proto.node.clone(),
+                        raw: proto.raw.clone(),
+                        prefix: d.clone(),
+                        is_mem: proto.is_mem,
+                        lower: lower || i > 0,
+                        upper: upper || i == 0,
+                        top_layer: if id == "0" { Some(i) } else { top_layer },
+                    });
+                }
+                Box::new(OverlayFS::new(&roots))
             }
             Cfg::Ov(layers) => {
                 let mut roots = vec![];
